@@ -1,5 +1,6 @@
 (* C17 model driver.  usage: model cases.txt [impl.out]
-   One line per case:   <model observation> | <oracle verdict on the impl's line>
+   One line per case:   <model observation (code after fixes/C17-*.patch)> | <oracle verdict on the impl's line> | <observation of the as-found model>
+   (third field "=" when both models agree; it lets the check recognise a tree on which a fix is not yet applied)
    The oracle (extracted C17_Spec functions) is applied to the implementation's own output
    (argv[2], one line per case); without argv[2] the verdict field is "-". *)
 open C17_model
@@ -58,6 +59,7 @@ let () =
     let line = input_line ic in
     let il = match impl with None -> None | Some c -> (try Some (String.trim (input_line c)) with End_of_file -> None) in
     let t = Array.of_list (List.filter (fun s -> s <> "") (String.split_on_char ' ' (String.trim line))) in
+    let asfound = ref "=" in
     let model, oracle =
       try
       match t.(0) with
@@ -120,7 +122,9 @@ let () =
         let (p, e, w, _) = fmt_of t.(1) in let ty = ity_of t.(2) in let s = cstyle_of t.(3) in let r = rstyle_of t.(4) in
         let fb x = c17_of_bits p e w (z_of_hex x) in
         let eps = fb t.(5) and v = fb t.(6) in
-        let res = if isround then c17_round p e r ty s eps v else c17_trunc p e r ty s eps v in
+        let res = if isround then c17_round_fix p e r ty s eps v else c17_trunc_fix p e r ty s eps v in
+        let res0 = if isround then c17_round p e r ty s eps v else c17_trunc p e r ty s eps v in
+        asfound := (if res0 = res then "=" else ires_str res0);
         let orc = (match il with
           | None -> "-"
           | Some l ->
@@ -147,7 +151,10 @@ let () =
         let res, exact = (match t.(0) with
           | "ipow" -> c17_ipower ty a b, (if Z.ltb b Z0 then None else Some (c17_spec_power a b))
           | "fact" -> c17_factorial ty a, Some (c17_spec_factorial a)
-          | "binom" -> c17_binomial ty a b, Some (c17_spec_binomial_fast a b)
+          | "binom" ->
+            let r0 = c17_binomial ty a b and r1 = c17_binomial_fix ty a b in
+            asfound := (if r0 = r1 then "=" else ires_str r0);
+            r1, Some (c17_spec_binomial_fast a b)
           | _ -> C17_Val (c17_isign a), Some (c17_spec_sign a)) in
         let orc = (match il, exact with
           | None, _ -> "-"
@@ -210,5 +217,5 @@ let () =
       | _ -> "UNKNOWN-OP", "-"
       with Failure m -> "MODEL-ERROR " ^ m, "-" | Invalid_argument m -> "MODEL-ERROR " ^ m, "-" | Not_found -> "MODEL-ERROR notfound", "-"
     in
-    print_string model; print_string " | "; print_endline oracle
+    print_string model; print_string " | "; print_string oracle; print_string " | "; print_endline !asfound
   done with End_of_file -> ())
